@@ -216,9 +216,13 @@ Proof.
 Qed.
 
 (* ------------------------------------------------------------------ Dual, Dual2, Number *)
-Definition ok_dual (d : dual T) : Prop := NoDup (vs d) /\ fits (List.length (du d)).
+(* a reachable Dual / Dual2: duplicate-free names, one derivative per name, an n x n second-order array *)
+Definition ok_dual (d : dual T) : Prop :=
+  NoDup (vs d) /\ fits (List.length (du d)) /\ List.length (vs d) = List.length (du d).
 Definition ok_jdual2 (d : jdual2 T) : Prop :=
-  NoDup (j2_vars d) /\ fits (List.length (j2_du d)) /\ arr2_ok (j2_dd d).
+  NoDup (j2_vars d) /\ fits (List.length (j2_du d)) /\ arr2_ok (j2_dd d) /\
+  List.length (j2_vars d) = List.length (j2_du d) /\
+  a_rows (j2_dd d) = Z.of_nat (List.length (j2_vars d)) /\ a_cols (j2_dd d) = Z.of_nat (List.length (j2_vars d)).
 
 Lemma dedup_aux_id' seen l : NoDup l -> (forall v, In v l -> ~ In v seen) -> dedup_aux seen l = l.
 Proof.
@@ -244,11 +248,11 @@ Ltac field_cases i Hi :=
 
 Theorem dec_dual_enc d : ok_dual d -> dec_dual (enc_dual d) = Ok d.
 Proof.
-  intros [ND F]. unfold dec_dual, enc_dual.
+  intros [ND [F L]]. unfold dec_dual, enc_dual.
   assert (A1 : dec_arr1 dec_f64 (enc_arr1 JNum (du d)) = Ok (du d)) by (apply dec_arr1_enc; auto).
   rewrite fields_of_enc.
   - cbn [obind map slot nth req]. rewrite dec_vars_enc by auto. rewrite A1. cbn [obind].
-    destruct d; reflexivity.
+    rewrite L, Nat.eqb_refl. destruct d; reflexivity.
   - vm_compute. repeat constructor; intros C; repeat (destruct C as [C|C]; [discriminate|]); auto.
   - reflexivity.
   - intros i Hi. field_cases i Hi.
@@ -259,12 +263,12 @@ Qed.
 
 Theorem dec_dual2_enc d : ok_jdual2 d -> dec_dual2 (enc_dual2 d) = Ok d.
 Proof.
-  intros [ND [F A]]. unfold dec_dual2, enc_dual2.
+  intros [ND [F [A [L [Rw Cl]]]]]. unfold dec_dual2, enc_dual2.
   assert (A1 : dec_arr1 dec_f64 (enc_arr1 JNum (j2_du d)) = Ok (j2_du d)) by (apply dec_arr1_enc; auto).
   pose proof (dec_arr2_enc _ A) as A2.
   rewrite fields_of_enc.
   - cbn [obind map slot nth req]. rewrite dec_vars_enc by auto. rewrite A1, A2. cbn [obind].
-    destruct d; reflexivity.
+    rewrite Rw, Cl, L, Nat.eqb_refl, Z.eqb_refl. cbn [andb]. destruct d; reflexivity.
   - vm_compute. repeat constructor; intros C; repeat (destruct C as [C|C]; [discriminate|]); auto.
   - reflexivity.
   - intros i Hi. field_cases i Hi.
@@ -379,10 +383,10 @@ Proof.
   - reflexivity.
   - intros i Hi. field_cases i Hi. reflexivity.
 Qed.
-Theorem dec_named_enc n : ok_named n -> dec_named rebuild_named_expect (enc_named n : json) = Ok n.
+Theorem dec_named_enc n : ok_named n -> dec_named rebuild_named (enc_named n : json) = Ok n.
 Proof.
   intros Hn. unfold dec_named. rewrite dec_named_model_enc. cbn [obind].
-  unfold rebuild_named_expect. rewrite Hn. reflexivity.
+  unfold rebuild_named. exact Hn.
 Qed.
 (* every constructed NamedCal is reachable in that sense: the stored name is already lower case *)
 Lemma named_try_new_ok_named s n : named_try_new s = Ok n -> ok_named n.
@@ -399,14 +403,14 @@ Qed.
 (* ------------------------------------------------------------------ curves *)
 Lemma dec_caltype_enc c :
   match c with CTCal x => ok_cal x | CTUnion u => ok_ucal u | CTNamed n => ok_named n end ->
-  dec_caltype rebuild_named_expect (enc_caltype c : json) = Ok c.
+  dec_caltype rebuild_named (enc_caltype c : json) = Ok c.
 Proof.
   destruct c as [x|u|n]; intros Hc; unfold dec_caltype, enc_caltype.
   - rewrite (dec_tagged_one _ k_Cal (fun j => omap CTCal (dec_cal j))) by reflexivity.
     rewrite dec_cal_enc by auto. reflexivity.
   - rewrite (dec_tagged_one _ k_UnionCal (fun j => omap CTUnion (dec_ucal j))) by reflexivity.
     rewrite dec_ucal_enc by auto. reflexivity.
-  - rewrite (dec_tagged_one _ k_NamedCal (fun j => omap CTNamed (dec_named rebuild_named_expect j))) by reflexivity.
+  - rewrite (dec_tagged_one _ k_NamedCal (fun j => omap CTNamed (dec_named rebuild_named j))) by reflexivity.
     rewrite dec_named_enc by auto. reflexivity.
 Qed.
 
@@ -445,21 +449,47 @@ Proof.
   intros kv Hkv. destruct (Hm kv Hkv). split; auto.
 Qed.
 
+(* keys strictly increasing: what CurveDF::try_new (and now the loader) establishes by sort_keys *)
+Lemma strictly_incr_tail a l : strictly_incr (a :: l) = true -> strictly_incr l = true.
+Proof. destruct l as [|b l]; cbn [strictly_incr]; auto. intros E. apply andb_true_iff in E. tauto. Qed.
+Lemma sort_keys_sorted {V} (m : list (Z * V)) : strictly_incr (map fst m) = true -> sort_keys m = m.
+Proof.
+  induction m as [|x m IH]; intros S; [reflexivity|].
+  unfold sort_keys in *. cbn [fold_right]. rewrite IH by (eapply strictly_incr_tail; exact S).
+  destruct m as [|y m]; [reflexivity|]. cbn [map strictly_incr] in S. apply andb_true_iff in S. destruct S as [S _].
+  cbn [ins_key]. rewrite S. reflexivity.
+Qed.
+Lemma strictly_incr_lb a l : strictly_incr (a :: l) = true -> forall x, In x l -> a < x.
+Proof.
+  revert a. induction l as [|b l IH]; intros a S x Hx; [destruct Hx|].
+  cbn [strictly_incr] in S. apply andb_true_iff in S. destruct S as [S1 S2]. apply Z.ltb_lt in S1.
+  destruct Hx as [<-|Hx]; auto. specialize (IH b S2 x Hx). lia.
+Qed.
+Lemma strictly_incr_nodup l : strictly_incr l = true -> NoDup l.
+Proof.
+  induction l as [|a l IH]; intros S; constructor.
+  - intros C. pose proof (strictly_incr_lb a l S a C). lia.
+  - apply IH. eapply strictly_incr_tail; eauto.
+Qed.
+Definition ok_smap {V} (okv : V -> Prop) (m : list (Z * V)) : Prop :=
+  strictly_incr (map fst m) = true /\ forall kv, In kv m -> i64_min <= fst kv <= i64_max /\ okv (snd kv).
+Lemma ok_smap_imap {V} (okv : V -> Prop) m : ok_smap okv m -> ok_imap okv m.
+Proof. intros [S Hm]. split; auto. apply strictly_incr_nodup; auto. Qed.
 Definition ok_nodes (n : jnodes T) : Prop :=
   match n with
-  | NdF m => ok_imap (fun _ => True) m
-  | NdD m => ok_imap ok_dual m
-  | NdD2 m => ok_imap ok_jdual2 m
+  | NdF m => ok_smap (fun _ => True) m
+  | NdD m => ok_smap ok_dual m
+  | NdD2 m => ok_smap ok_jdual2 m
   end.
 Lemma dec_nodes_enc n : ok_nodes n -> dec_nodes (enc_nodes n) = Ok n.
 Proof.
-  destruct n as [m|m|m]; intros Hn; unfold dec_nodes, enc_nodes.
-  - rewrite (dec_tagged_one _ k_F64 (fun j => omap NdF (dec_imap dec_f64 j))) by reflexivity.
-    rewrite (dec_imap_enc dec_f64 JNum (fun _ => True)); auto.
-  - rewrite (dec_tagged_one _ k_Dual (fun j => omap NdD (dec_imap dec_dual j))) by reflexivity.
-    rewrite (dec_imap_enc dec_dual enc_dual ok_dual); auto. apply dec_dual_enc.
-  - rewrite (dec_tagged_one _ k_Dual2 (fun j => omap NdD2 (dec_imap dec_dual2 j))) by reflexivity.
-    rewrite (dec_imap_enc dec_dual2 enc_dual2 ok_jdual2); auto. apply dec_dual2_enc.
+  destruct n as [m|m|m]; intros Hn; unfold dec_nodes, enc_nodes; pose proof (ok_smap_imap _ _ Hn) as Hi; destruct Hn as [S _].
+  - rewrite (dec_tagged_one _ k_F64 (fun j => omap (fun m => NdF (sort_keys m)) (dec_imap dec_f64 j))) by reflexivity.
+    rewrite (dec_imap_enc dec_f64 JNum (fun _ => True)); auto. cbn [omap]. rewrite sort_keys_sorted; auto.
+  - rewrite (dec_tagged_one _ k_Dual (fun j => omap (fun m => NdD (sort_keys m)) (dec_imap dec_dual j))) by reflexivity.
+    rewrite (dec_imap_enc dec_dual enc_dual ok_dual); auto; [|apply dec_dual_enc]. cbn [omap]. rewrite sort_keys_sorted; auto.
+  - rewrite (dec_tagged_one _ k_Dual2 (fun j => omap (fun m => NdD2 (sort_keys m)) (dec_imap dec_dual2 j))) by reflexivity.
+    rewrite (dec_imap_enc dec_dual2 enc_dual2 ok_jdual2); auto; [|apply dec_dual2_enc]. cbn [omap]. rewrite sort_keys_sorted; auto.
 Qed.
 Lemma dec_rule_enc r : (r < 6)%nat -> dec_rule (enc_rule r : json) = Ok r.
 Proof.
@@ -484,7 +514,7 @@ Proof. apply nodupb_spec. Qed.
 Definition ok_curve (c : jcurve T) : Prop :=
   ok_nodes (cv_nodes c) /\ (cv_rule c < 6)%nat /\ (cv_conv c < 11)%nat /\ (cv_mod c < 5)%nat /\
   match cv_cal c with CTCal x => ok_cal x | CTUnion u => ok_ucal u | CTNamed n => ok_named n end.
-Theorem dec_curvedf_enc c : ok_curve c -> dec_curvedf rebuild_named_expect (enc_curvedf c) = Ok c.
+Theorem dec_curvedf_enc c : ok_curve c -> dec_curvedf rebuild_named (enc_curvedf c) = Ok c.
 Proof.
   intros [Hn [Hr [Hc [Hm Hcal]]]]. unfold dec_curvedf, enc_curvedf.
   pose proof (dec_nodes_enc _ Hn) as A0. pose proof (dec_rule_enc _ Hr) as A1.
@@ -502,7 +532,7 @@ Proof.
   - reflexivity.
   - intros i Hi. field_cases i Hi; try (eapply chk_ok; eauto; fail). reflexivity.
 Qed.
-Theorem dec_curve_enc c : ok_curve c -> dec_curve rebuild_named_expect (enc_curve c) = Ok c.
+Theorem dec_curve_enc c : ok_curve c -> dec_curve rebuild_named (enc_curve c) = Ok c.
 Proof.
   intros Hc. unfold dec_curve, enc_curve. pose proof (dec_curvedf_enc c Hc) as A.
   rewrite fields_of_enc.
@@ -541,7 +571,7 @@ Qed.
    at AD order one, see fx_reload below) *)
 Definition ok_fx (f : jfx T) : Prop :=
   Forall ok_fxrate (jf_rates f) /\ NoDup (jf_ccys f) /\
-  rebuild_fx_expect (mkJFxData (jf_rates f) (jf_ccys f)) = Ok f.
+  rebuild_fx (mkJFxData (jf_rates f) (jf_ccys f)) = Ok f.
 Lemma dec_fxdata_enc f : Forall ok_fxrate (jf_rates f) -> NoDup (jf_ccys f) ->
   dec_fxdata (enc_fx f) = Ok (mkJFxData (jf_rates f) (jf_ccys f)).
 Proof.
@@ -558,7 +588,7 @@ Proof.
   - reflexivity.
   - intros i Hi. field_cases i Hi; eapply chk_ok; eauto.
 Qed.
-Theorem dec_fx_enc f : ok_fx f -> dec_fx rebuild_fx_expect (enc_fx f) = Ok f.
+Theorem dec_fx_enc f : ok_fx f -> dec_fx rebuild_fx (enc_fx f) = Ok f.
 Proof.
   intros [FR [ND R]]. unfold dec_fx. rewrite dec_fxdata_enc by auto. cbn [obind]. exact R.
 Qed.
@@ -568,14 +598,19 @@ Lemma enc_fx_ignores_array (f : jfx T) (a : numarr T) : enc_fx (mkJFx (jf_rates 
 Proof. reflexivity. Qed.
 
 (* ------------------------------------------------------------------ splines *)
+(* a reachable spline: what PPSpline::new asserts (two knots or more, non-decreasing, k <= |t|) and n = |t| - k *)
+Definition spline_validb {X} (s : jspline T X) : bool :=
+  let lt := Z.of_nat (List.length (sp_t s)) in
+  (1 <? lt) && nondecr (sp_t s) && (sp_k s <=? lt) && (sp_n s =? lt - sp_k s).
 Definition ok_spline {X} (okx : X -> Prop) (s : jspline T X) : Prop :=
   0 <= sp_k s <= u64_max /\ 0 <= sp_n s <= u64_max /\
-  match sp_c s with None => True | Some c => fits (List.length c) /\ Forall okx c end.
+  match sp_c s with None => True | Some c => fits (List.length c) /\ Forall okx c end /\
+  spline_validb s = true.
 Lemma dec_pp_enc {X} (d : json -> outcome X) (e : X -> json) (okx : X -> Prop) s :
   (forall x, okx x -> d (e x) = Ok x) -> (forall x, e x <> JNull) -> ok_spline okx s ->
   dec_pp d (enc_pp e s) = Ok s.
 Proof.
-  intros Hd Hne [Hk [Hn Hc]]. unfold dec_pp, enc_pp.
+  intros Hd Hne [Hk [Hn [Hc Hv]]]. unfold dec_pp, enc_pp.
   pose proof (dec_usize_range _ Hk) as A0. pose proof (dec_usize_range _ Hn) as A3.
   assert (A1 : dec_seq dec_f64 (enc_seq JNum (sp_t s)) = Ok (sp_t s)).
   { unfold dec_seq, enc_seq. apply omapM_map. reflexivity. }
@@ -585,7 +620,8 @@ Proof.
     change (omap Some (dec_arr1 d (enc_arr1 e c)) = Ok (Some c)).
     rewrite dec_arr1_enc; auto. intros x Hin. apply Hd. rewrite Forall_forall in Hx. auto. }
   rewrite fields_of_enc.
-  - cbn [obind map slot nth req optf]. rewrite A0, A1, A2, A3. cbn [obind]. destruct s; reflexivity.
+  - cbn [obind map slot nth req optf]. rewrite A0, A1, A2, A3. cbn [obind].
+    unfold spline_validb in Hv. rewrite Hv. destruct s; reflexivity.
   - apply nodup_closed. reflexivity.
   - reflexivity.
   - intros i Hi. field_cases i Hi; eapply chk_ok; eauto.
@@ -616,7 +652,7 @@ Definition ok_obj (o : obj T) : Prop :=
   | OSpD s => ok_spline ok_dual s
   | OSpD2 s => ok_spline ok_jdual2 s
   end.
-Notation load := (dec_obj rebuild_named_expect rebuild_fx_expect).
+Notation load := (dec_obj rebuild_named rebuild_fx).
 
 Theorem dec_obj_enc o : ok_obj o -> load (enc_obj o) = Ok o.
 Proof.
@@ -629,11 +665,11 @@ Proof.
     rewrite dec_cal_enc by auto. reflexivity.
   - rewrite (dec_tagged_one _ k_UnionCal (fun j => omap OUnion (dec_ucal j))) by reflexivity.
     rewrite dec_ucal_enc by auto. reflexivity.
-  - rewrite (dec_tagged_one _ k_NamedCal (fun j => omap ONamed (dec_named rebuild_named_expect j))) by reflexivity.
+  - rewrite (dec_tagged_one _ k_NamedCal (fun j => omap ONamed (dec_named rebuild_named j))) by reflexivity.
     rewrite dec_named_enc by auto. reflexivity.
-  - rewrite (dec_tagged_one _ k_FXRates (fun j => omap OFX (dec_fx rebuild_fx_expect j))) by reflexivity.
+  - rewrite (dec_tagged_one _ k_FXRates (fun j => omap OFX (dec_fx rebuild_fx j))) by reflexivity.
     rewrite dec_fx_enc by auto. reflexivity.
-  - rewrite (dec_tagged_one _ k_Curve (fun j => omap OCurve (dec_curve rebuild_named_expect j))) by reflexivity.
+  - rewrite (dec_tagged_one _ k_Curve (fun j => omap OCurve (dec_curve rebuild_named j))) by reflexivity.
     rewrite dec_curve_enc by auto. reflexivity.
   - rewrite (dec_tagged_one _ k_PPSplineF64 (fun j => omap OSpF (dec_spline dec_f64 j))) by reflexivity.
     rewrite (dec_spline_enc dec_f64 JNum (fun _ => True)); auto. discriminate.
@@ -645,7 +681,7 @@ Qed.
 
 (* the direct entry point of each type (JSON::from_json of the payload, no tag) *)
 Theorem dec_payload_enc o : ok_obj o ->
-  dec_payload rebuild_named_expect rebuild_fx_expect (Z.to_nat (kind_of o)) (enc_payload o) = Ok o.
+  dec_payload rebuild_named rebuild_fx (Z.to_nat (kind_of o)) (enc_payload o) = Ok o.
 Proof.
   destruct o; intros Ho; cbn [ok_obj] in Ho; unfold dec_payload, enc_payload, enc_obj, tag1, kind_of;
     match goal with |- context [Z.to_nat ?z] => let n := eval vm_compute in (Z.to_nat z) in change (Z.to_nat z) with n end;
@@ -747,7 +783,7 @@ Proof.
       unfold cal_eqb. rewrite !zset_eqb_refl. reflexivity. }
     rewrite C.
     assert (N : nodes_eqb (cv_nodes c) (cv_nodes c) = true).
-    { destruct (cv_nodes c); cbn [nodes_eqb ok_nodes] in *; destruct Hn as [ND _]; apply imap_eqb_refl; auto;
+    { destruct (cv_nodes c); cbn [nodes_eqb ok_nodes] in *; destruct Hn as [ND _]; apply strictly_incr_nodup in ND; apply imap_eqb_refl; auto;
         intros; auto using deqb_refl, jdual2_eqb_refl. }
     rewrite N. reflexivity.
   - unfold spline_eqb. rewrite !Z.eqb_refl. cbn [negb orb].
@@ -820,7 +856,7 @@ Lemma c16_tree_roundtrip : forall (T : Type) (H : Num T), (forall x : T, neqb x 
   forall o : obj T, ok_obj o -> from_json_model (enc_obj o) = Ok o /\ obj_eqb o o = true.
 Proof. intros T H R o Ho. split; [apply dec_obj_enc; auto | apply obj_eqb_refl; auto]. Qed.
 Lemma c16_direct : forall (T : Type) (H : Num T) (o : obj T), ok_obj o ->
-  dec_payload rebuild_named_expect rebuild_fx_expect (Z.to_nat (kind_of o)) (enc_payload o) = Ok o.
+  dec_payload rebuild_named rebuild_fx (Z.to_nat (kind_of o)) (enc_payload o) = Ok o.
 Proof. intros. apply dec_payload_enc; auto. Qed.
 Lemma c16_named_norm : forall s n, named_try_new s = Ok n ->
   n_name n = lower s /\ named_try_new (n_name n) = Ok n.
